@@ -99,7 +99,7 @@ static bool apply(polyseed_data* s, pv_mseed* m, const char* pw, const char* pwc
     return ok;
 }
 
-static uint64_t n_crypt(void) { return pv_scaled(25000, 600000); }
+static uint64_t n_crypt(void) { return pv_scaled(25000, 6000000); }
 static void run_crypt(uint64_t idx, pv_rng* rng) {
     g_rng = rng;
     g_cur_secret = NULL; g_cur_pw = NULL;
@@ -148,7 +148,7 @@ done:
 }
 
 /* canonically equivalent spellings give the same result */
-static uint64_t n_equiv(void) { return pv_scaled(6000, 150000); }
+static uint64_t n_equiv(void) { return pv_scaled(6000, 1500000); }
 static void run_equiv(uint64_t idx, pv_rng* rng) {
     (void)idx;
     pv_mseed m; pv_gen_mseed(rng, 7, true, &m);
